@@ -95,6 +95,10 @@ func AllFamilies(tier string, withVectors bool, emit func(AnyBatch)) {
 		cc := c
 		emit(AnyBatch{Cells: &cc})
 	})
+	WideBatches(tier, func(c BatchCase) {
+		cc := c
+		emit(AnyBatch{Cells: &cc})
+	})
 	StoredBatches(tier, func(c StoredCase) {
 		cc := c
 		emit(AnyBatch{Stored: &cc})
